@@ -316,6 +316,9 @@ func sigMutations(p pset, kp keypair, msg, ctx, sig []byte, r *rand.Rand, layers
 		ms = append(ms, mutation{"pk-len-1", sig, msg, ctx, clone(kp.pk[:len(kp.pk)-1])})
 		ms = append(ms, mutation{"pk-len+1", sig, msg, ctx, append(clone(kp.pk), 0)})
 		ms = append(ms, mutation{"pk-halves-swapped", sig, msg, ctx, append(clone(kp.pk[n:]), kp.pk[:n]...)})
+		ms = append(ms, mutation{"pk-seed-first-byte", sig, msg, ctx, flip(kp.pk, 0, r)})
+		ms = append(ms, mutation{"pk-root-last-byte", sig, msg, ctx, flip(kp.pk, 2*n-1, r)})
+		ms = append(ms, mutation{"R-last-byte", sig, msg, ctx, flip(sig, n-1, r)})
 	}
 	return ms
 }
@@ -479,6 +482,8 @@ func runSet(out *sink, p pset, sz sizes, r *rand.Rand) {
 			emitVerify(out, p, "internal", kp.pk, msg, nil, rs, verifyInternalAPI(p, kp.pk, msg, rs, nil), "raw-as-pure", "NO_PREFIX", "00000000")
 		}
 	}
+	// ---- chosen digests: every leaf index at every layer, boundary FORS indices
+	digestEvents(out, p, kp, r)
 	// ---- public API: keyset -> signature.NewSigner / NewVerifier, both variants, the API-generated key and the seeded key
 	ids := []uint32{0x01020304, 0xffffffff, 0x7fffffff, 0x80000000, 1}
 	for q := 0; q < sz.apiMsgs; q++ {
@@ -518,6 +523,117 @@ func runSet(out *sink, p pset, sz sizes, r *rand.Rand) {
 			av(clone(sig[pl:]), msg, "api-prefix-stripped")
 		} else {
 			av(append([]byte{1, 1, 2, 3, 4}, sig...), msg, "api-prefix-added")
+		}
+	}
+}
+
+// ---------------------------------------------------------------------------------------- chosen digests
+
+// composeDigest builds an m-byte digest whose md part carries the given FORS indices (k values of a bits), whose
+// tree part carries tree (h-h' bits) and whose leaf part carries leaf (h' bits); unused bits are filled with fill.
+func composeDigest(p pset, fors []int, tree uint64, leaf int, fill bool) []byte {
+	mdLen, treeLen, leafLen := (p.K*p.A+7)/8, (p.H-p.HP+7)/8, (p.HP+7)/8
+	dg := make([]byte, mdLen+treeLen+leafLen)
+	if fill {
+		for i := range dg {
+			dg[i] = 0xff
+		}
+	}
+	setBit := func(pos int, v int) { // bit pos counted from the most significant bit of dg[0]
+		if v != 0 {
+			dg[pos/8] |= 0x80 >> uint(pos%8)
+		} else {
+			dg[pos/8] &^= 0x80 >> uint(pos%8)
+		}
+	}
+	for i, ix := range fors {
+		for b := 0; b < p.A; b++ {
+			setBit(i*p.A+b, (ix>>uint(p.A-1-b))&1)
+		}
+	}
+	tb := p.H - p.HP
+	for b := 0; b < tb; b++ { // low tb bits of the tree bytes
+		setBit(8*(mdLen+treeLen)-1-b, int((tree>>uint(b))&1))
+	}
+	for b := 0; b < p.HP; b++ {
+		setBit(8*(mdLen+treeLen+leafLen)-1-b, (leaf>>uint(b))&1)
+	}
+	return dg
+}
+
+// digestEvents steers the real signing and verification code (real F, H, T_l, PRF; H_msg forced) to chosen indices:
+// every leaf value v at EVERY hypertree layer at once (idx_leaf = v and every h'-bit slice of idx_tree = v), and all
+// FORS indices equal to a boundary value.
+func digestEvents(out *sink, p pset, kp keypair, r *rand.Rand) {
+	leafMax := 1<<uint(p.HP) - 1
+	var leaves []int
+	if p.Fast {
+		for v := 0; v <= leafMax; v++ {
+			leaves = append(leaves, v)
+		}
+	} else if vt.Thorough() {
+		leaves = []int{0, 1, 2, leafMax / 2, leafMax/2 + 1, leafMax - 1, leafMax}
+		for q := 0; q < 17; q++ {
+			leaves = append(leaves, r.Intn(leafMax+1))
+		}
+	} else {
+		leaves = []int{0, leafMax}
+	}
+	aMax := 1<<uint(p.A) - 1
+	forsVals := []int{0, aMax}
+	if vt.Thorough() {
+		forsVals = []int{0, 1, aMax - 1, aMax, aMax / 2, aMax/2 + 1, r.Intn(aMax + 1), r.Intn(aMax + 1)}
+	}
+	type dcase struct {
+		dg   []byte
+		what string
+	}
+	var cases []dcase
+	randFors := func() []int {
+		f := make([]int, p.K)
+		for i := range f {
+			f[i] = r.Intn(aMax + 1)
+		}
+		return f
+	}
+	for n, v := range leaves {
+		var tree uint64
+		for j := 0; j < p.D-1; j++ {
+			tree |= uint64(v) << uint(j*p.HP)
+		}
+		cases = append(cases, dcase{composeDigest(p, randFors(), tree, v, n%2 == 1), fmt.Sprintf("leaf=%d at every layer", v)})
+	}
+	for n, u := range forsVals {
+		f := make([]int, p.K)
+		for i := range f {
+			f[i] = u
+		}
+		cases = append(cases, dcase{composeDigest(p, f, r.Uint64(), r.Intn(leafMax+1), n%2 == 0), fmt.Sprintf("fors=%d in every tree", u)})
+	}
+	for n, c := range cases {
+		rr := vt.Bytes(r, p.N)
+		var sig []byte
+		var err error
+		pan, _ := vt.Try(func() { sig, err = verifhooks.SLHSignDigest(p.Name, clone(kp.sk), clone(c.dg), clone(rr)) })
+		full := p.Fast && vt.Thorough() && n < 2
+		out.Emit(vt.Ev{"ev": "sign_digest", "ps": p.Name, "sk": vt.Hex(kp.sk), "digest": vt.Hex(c.dg), "r": vt.Hex(rr), "sig": vt.Hex(sig),
+			"err": err != nil, "panic": pan, "full": full, "what": c.what})
+		if err != nil || pan {
+			continue
+		}
+		vd := func(sg []byte, mut string) {
+			var v verdict
+			v.panic, _ = vt.Try(func() {
+				verr, derr := verifhooks.SLHVerifyDigest(p.Name, clone(kp.pk), clone(c.dg), clone(sg))
+				v.ok = verr == nil && derr == nil
+			})
+			out.Emit(vt.Ev{"ev": "verify_digest", "ps": p.Name, "pk": vt.Hex(kp.pk), "digest": vt.Hex(c.dg), "sig": vt.Hex(sg), "ok": v.ok,
+				"panic": v.panic, "mut": mut, "what": c.what})
+		}
+		vd(sig, "none")
+		if n%4 == 0 { // one corruption in the top XMSS layer's authentication path
+			off := p.N + p.forsLen() + (p.D-1)*p.xmssLen() + (p.Len+r.Intn(p.HP))*p.N + r.Intn(p.N)
+			vd(flip(sig, off, r), "xmss-auth/top")
 		}
 	}
 }
@@ -745,6 +861,36 @@ func hookEvents(out *sink, sz sizes, r *rand.Rand) {
 			out.Emit(vt.Ev{"ev": "split", "ps": p.Name, "digest": vt.Hex(dg), "fors": fors, "layers": layers, "calls": len(calls)})
 		}
 	}
+	// the final root comparison on chosen PK.root values (stubbed hashes: every node is the zero string)
+	for _, p := range psets {
+		dg := vt.Bytes(r, p.M)
+		var roots [][]byte
+		roots = append(roots, make([]byte, p.N))
+		pos := []int{0, 1, p.N / 2, p.N - 2, p.N - 1}
+		if vt.Thorough() {
+			pos = nil
+			for i := 0; i < p.N; i++ {
+				pos = append(pos, i)
+			}
+		}
+		for _, i := range pos {
+			x := make([]byte, p.N)
+			x[i] = 1 << uint(r.Intn(8))
+			roots = append(roots, x)
+		}
+		ff := make([]byte, p.N)
+		for i := range ff {
+			ff[i] = 0xff
+		}
+		roots = append(roots, ff)
+		for _, root := range roots {
+			ok, err := verifhooks.SLHVerifyStubbed(p.Name, clone(dg), clone(root))
+			if err != nil {
+				vt.Fatal("root hook: %v", err)
+			}
+			out.Emit(vt.Ev{"ev": "rootcmp", "ps": p.Name, "digest": vt.Hex(dg), "pkroot": vt.Hex(root), "ok": ok})
+		}
+	}
 }
 
 // ---------------------------------------------------------------------------------------- replay / plan
@@ -886,6 +1032,30 @@ func reexec(out *sink, e map[string]any) {
 			all = append(all, verifhooks.SLHBase2b([]byte{byte(x >> 8), byte(x)}, uint32(b), uint32(outLen))...)
 		}
 		out.Emit(vt.Ev{"ev": "base2b_range", "b": b, "outLen": outLen, "start": start, "count": count, "out": u16hex(all)})
+	case "sign_digest":
+		p := findSet(str(e, "ps"))
+		var sig []byte
+		var err error
+		pan, _ := vt.Try(func() {
+			sig, err = verifhooks.SLHSignDigest(p.Name, vt.Unhex(str(e, "sk")), vt.Unhex(str(e, "digest")), vt.Unhex(str(e, "r")))
+		})
+		out.Emit(vt.Ev{"ev": "sign_digest", "ps": p.Name, "sk": str(e, "sk"), "digest": str(e, "digest"), "r": str(e, "r"), "sig": vt.Hex(sig),
+			"err": err != nil, "panic": pan, "full": boolean(e, "full"), "what": str(e, "what")})
+	case "verify_digest":
+		p := findSet(str(e, "ps"))
+		var v verdict
+		v.panic, _ = vt.Try(func() {
+			verr, derr := verifhooks.SLHVerifyDigest(p.Name, vt.Unhex(str(e, "pk")), vt.Unhex(str(e, "digest")), vt.Unhex(str(e, "sig")))
+			v.ok = verr == nil && derr == nil
+		})
+		out.Emit(vt.Ev{"ev": "verify_digest", "ps": p.Name, "pk": str(e, "pk"), "digest": str(e, "digest"), "sig": str(e, "sig"), "ok": v.ok,
+			"panic": v.panic, "mut": str(e, "mut"), "what": str(e, "what")})
+	case "rootcmp":
+		ok, err := verifhooks.SLHVerifyStubbed(str(e, "ps"), vt.Unhex(str(e, "digest")), vt.Unhex(str(e, "pkroot")))
+		if err != nil {
+			vt.Fatal("replay rootcmp: %v", err)
+		}
+		out.Emit(vt.Ev{"ev": "rootcmp", "ps": str(e, "ps"), "digest": str(e, "digest"), "pkroot": str(e, "pkroot"), "ok": ok})
 	case "checksum":
 		m := vt.Unhex(str(e, "msg"))
 		ds, err := verifhooks.SLHWotsChecksum(str(e, "ps"), m)
